@@ -94,6 +94,10 @@ def main(tier):
             jobs.append(dict(par=dict(stack=st, seed=seed() + 61 + si, level=5), sid=sid, **s)); sid += 1
             # ... and one data flip + one tag flip in every chunk, whole and cut right after the damaged chunk
             jobs.append(dict(par=dict(stack=st, seed=seed() + 61 + si, level=5), sid=sid, faults="all", **s)); sid += 1
+    # a long history (12 files, dozens of interleaved runs, hundreds of chunks): every chunk damaged in turn
+    for li, s in enumerate(long_scenarios(3 + seed() % 5)[:1 if tier == "quick" else 4]):
+        for st in ("enc", "comp+enc"):
+            jobs.append(dict(par=dict(stack=st, seed=seed() + 77 + li, level=5), sid=sid, faults="all", **s)); sid += 1
     # content chosen adversarially: after the damaged chunk the stream parses as EndOfFile(hash of the part before) + end marker
     for bad in (2, 3, 4):
         jobs.append(dict(par=dict(stack="enc", seed=seed() + 71 + bad), sid=sid, adv=dict(bad_chunk=bad))); sid += 1
